@@ -56,7 +56,7 @@ pub fn unit() -> T {
 
 pub fn sum(a: T, b: T) -> T {
     Arc::new(Ty {
-        width: 1 + a.width.max(b.width),
+        width: a.width.max(b.width).saturating_add(1),
         has_padding: a.has_padding || b.has_padding || a.width != b.width,
         tree_size: a.tree_size.saturating_add(b.tree_size).saturating_add(1),
         depth: 1 + a.depth.max(b.depth),
@@ -67,7 +67,7 @@ pub fn sum(a: T, b: T) -> T {
 
 pub fn prod(a: T, b: T) -> T {
     Arc::new(Ty {
-        width: a.width + b.width,
+        width: a.width.saturating_add(b.width),
         has_padding: a.has_padding || b.has_padding,
         tree_size: a.tree_size.saturating_add(b.tree_size).saturating_add(1),
         depth: 1 + a.depth.max(b.depth),
